@@ -1,0 +1,42 @@
+//go:build verif
+
+package extractor
+
+// Assumed (opaque) contracts of extractor entry points that are not (yet) verified: they read
+// the response body / document of the URL they are given and return freshly built URLs; the
+// only thing they write outside fresh objects is the URL's cached document/body position and
+// the item's base tag. Listed as assumptions in the evidence of every property using them.
+
+//@ func HTMLAssets
+//@   opaque
+//@   modifies models.URL::*, models.Item::base
+//@ func HTMLOutlinks
+//@   opaque
+//@   modifies models.URL::*, models.Item::base
+//@ func PDF
+//@   opaque
+//@   modifies models.URL::*
+//@ func ExtractURLsFromHeader
+//@   opaque
+//@   modifies nothing
+//@ func IsSitemapXML
+//@   opaque
+//@   modifies models.URL::*
+//@ func IsHTML
+//@   opaque
+//@   modifies nothing
+//@ func IsPDF
+//@   opaque
+//@   modifies nothing
+//@ func IsS3
+//@   opaque
+//@   modifies nothing
+//@ func IsM3U8
+//@   opaque
+//@   modifies nothing
+//@ func IsJSON
+//@   opaque
+//@   modifies nothing
+//@ func IsXML
+//@   opaque
+//@   modifies nothing
